@@ -8,7 +8,7 @@ from common import Driver, DriverFailure
 
 LEVEL = "proof"
 MANIFEST = dict(
-    text="Lean 4 theorems over histories of ANY length of manager calls (locate with 0/1/2 spas or raising, connect with every event sequence  Session 4: every error scenario x reset origin is run on the real stack with a suspending client handler and the reset must land in IDLE; the guard `self._spa is not None` is part of the translated vocabulary (.spaSome). The order inside GeckoAsyncSpa.disconnect() is a theorem over its regenerated suspension skeleton (disconnect_order: announced before the spa cancels its own tasks, nothing suspends between that cancellation and the last clean-up step)."
+    text="Lean 4 theorems over histories of ANY length of manager calls (locate with 0/1/2 spas or raising, connect with every event sequence "
          "`_connect` can produce incl. a raise at each await and a raising facade constructor, async_connect, every run-time event of the spa, "
          "ping-miss / RF-error sequences, water-care error, reset, set-spa-info), each enabled as the sequence pump drives it: CONNECTED only with "
          "an announced, not-torn-down facade on a connected spa; facade-ready exactly when CONNECTED is entered; per facade #teardown <= #ready <= 1; "
@@ -19,7 +19,7 @@ MANIFEST = dict(
          "that to all histories. Finding D7 is proved as a theorem about the shipped table (teardown delivered while facade is None) and "
          "reproduced on the real manager. Tie: translator + differential correspondence with the REAL GeckoAsyncSpaMan (locator.discover, "
          "GeckoAsyncSpa._connect, async_get_watercare and the facade constructor scripted) on the virtual loop, including calls parked at any "
-         "delivery/await while other calls run; direct monitors on the real manager.",
+         "delivery/await while other calls run; direct monitors on the real manager. Session 4: every error scenario x reset origin is run on the real stack with a suspending client handler and the reset must land in IDLE; the guard `self._spa is not None` is part of the translated vocabulary (.spaSome). The order inside GeckoAsyncSpa.disconnect() is a theorem over its regenerated suspension skeleton (disconnect_order: announced before the spa cancels its own tasks, nothing suspends between that cancellation and the last clean-up step). every_started_phase_is_closed: over the regenerated skeletons, the FINISHED announcement is awaited on every exit of the locate / connect phase, cancellation at any await included (resource monitor, sound by releasedOnEveryExit_sound).",
     note="Trusted: Lean kernel, translator (an unknown statement refuses), correspondence harness. The content of locate/connect is abstracted to its "
          "event sequence (C01/C06/C15). Theorems other than the delivery/status one are about calls that are not interleaved; interleavings are "
          "covered by correspondence + search to bounded depth. Locate/connect are assumed to be issued as the sequence pump does (one at a time, "
